@@ -226,6 +226,20 @@ def search(ctx):
             _, _, nodes2, dead2, _ = run_history(cfg, servers, ev2)
             if nodes2 != sorted(hs.server_name(s) for s in servers) or dead2:
                 why = "placement did not return to the original rotation after every server was healthy again: nodes %r dead %r" % (nodes2, dead2)
+        if why is None:
+            # ... and under STEADY traffic (calls much closer together than dead_timeout) within two dead_timeout periods
+            gap = max(1, cfg[2] // 4)
+            ev3 = events + [("heal", i) for i in range(nserv)]
+            for k in KEYS:
+                ev3.append(("op", "get", [k]))
+            for _ in range((2 * cfg[2]) // gap + 3):
+                ev3.append(("adv", gap))
+                for k in KEYS[:4]:
+                    ev3.append(("op", "get", [k]))
+            _, _, nodes3, dead3, _ = run_history(cfg, servers, ev3)
+            if nodes3 != sorted(hs.server_name(s) for s in servers) or dead3:
+                why = ("with every server healthy and a call every %d s, placement did not return to the original within two dead_timeout "
+                       "periods (%d s): nodes %r dead %r" % (gap, 2 * cfg[2], nodes3, dead3))
         if why:
             found.append({"clause": why, "input": {"retry_attempts": cfg[0], "retry_timeout": cfg[1], "dead_timeout": cfg[2], "ignore_exc": cfg[3],
                                                     "servers": nserv, "events": repr(events)}, "size": len(events), "case": repr((cfg, nserv, events))})
